@@ -1894,11 +1894,21 @@ class _Linalg(object):
             items = {(i, j): sym.div(cof(j, i), det) for i in range(3) for j in range(3)}
             return Arr((3, 3), lambda i, j: _sel_nd(items, (3, 3), (i, j)), 'real')
         c = CTX()
+        # the inverse is a function of the matrix: the same entries (syntactically) give the same opaque inverse
+        key = None
+        if a.ndim == 2 and dim_conc(a.shape[0]) and dim_conc(a.shape[1]) and a.shape[0] * a.shape[1] <= 400:
+            ents = [a.get(i, j) for i in range(a.shape[0]) for j in range(a.shape[1])]
+            key = (tuple(a.shape), tuple(('z', zterm(e).sexpr()) if isinstance(e, SV) else ('c', e) for e in ents))
+            memo_ = c.__dict__.setdefault('_inv_memo', {})
+            if key in memo_:
+                return memo_[key]
         F = c.fresh_fn('inv', a.ndim, 'real')
         if 'assumed-contract:np.linalg.inv (A.inv(A) = I when it returns)' not in c.trace:
             c.trace.append('assumed-contract:np.linalg.inv (A.inv(A) = I when it returns)')
         r = Arr(a.shape, lambda *i: SV(F(*[zterm(_generic(k)) for k in i])), 'real')
         r.inv_of = a
+        if key is not None:
+            memo_[key] = r
         return r
 
     def matrix_rank(self, a):
